@@ -24,6 +24,8 @@
 (*         interesting values are relative to the endpoint's CURRENT state   *)
 (*         (the cumulative TSN, the next expected message_seq ...), so the   *)
 (*         harness asks the live endpoint for the current value of the space *)
+(*   ls    (text) the token is a separator-structured list: the separator;   *)
+(*         px = a prefix character elements may carry                        *)
 (*   ew    for a variable leaf that is a list of fixed-width elements: the  *)
 (*         element width (its byte length should be a multiple of it)       *)
 (*                                                                         *)
@@ -37,7 +39,7 @@
 EXTENDS Naturals, Integers, Sequences, FiniteSets
 
 L0 == [n |-> "", k |-> "fixed", w |-> 0, ov |-> FALSE, mask |-> 0, of |-> "", unit |-> 1, bias |-> 0,
-       g |-> <<>>, unk |-> 0, el |-> FALSE, free |-> FALSE, tail |-> FALSE, s |-> "", ew |-> 0, sq |-> ""]
+       g |-> <<>>, unk |-> 0, el |-> FALSE, free |-> FALSE, tail |-> FALSE, s |-> "", ew |-> 0, sq |-> "", ls |-> "", px |-> ""]
 
 Fx(g, n, w)      == [L0 EXCEPT !.g = g, !.n = n, !.w = w]                       \* constrained fixed field
 Fr(g, n, w)      == [L0 EXCEPT !.g = g, !.n = n, !.w = w, !.free = TRUE]       \* unconstrained fixed field
@@ -411,6 +413,10 @@ TText(s, n, idx)      == [L0 EXCEPT !.s = s, !.n = n, !.k = "text", !.w = idx, !
 TLine(s, n)           == [L0 EXCEPT !.s = s, !.n = n, !.k = "line", !.el = TRUE, !.g = <<"sdp">>]
 \* tokens separated by the characters in `seps` instead of blanks (parameter lists: "a=fmtp:111 minptime=10;useinbandfec=1")
 Seps(l, seps)         == [l EXCEPT !.of = seps]
+\* the token is itself a list: elements separated by the character `sep`; `px` = a prefix character an element may
+\* carry (RFC 8853 '~').  Whole(...) = the whole rest of the line as one token (no token separator occurs in it)
+Lst(l, sep, px)       == [l EXCEPT !.ls = sep, !.px = px]
+Whole(s, n)           == [L0 EXCEPT !.s = s, !.n = n, !.k = "text", !.w = 0, !.free = TRUE, !.g = <<"sdp">>, !.of = "@"]
 
 SdpSessionCore ==
   << TLine("v=", "v.line"), TNum("v=", "version", 0, 32),
@@ -429,7 +435,7 @@ SdpMediaCore ==
      TLine("a=mid:", "mid.line"), TNum("a=mid:", "mid", 0, 16),
      TLine("a=rtpmap:", "rtpmap.line"), TNum("a=rtpmap:", "rtpmap.pt", 0, 8), TText("a=rtpmap:", "rtpmap.enc", 1),
        TNum("a=rtpmap:", "rtpmap.rate", 2, 32),
-     TLine("a=fmtp:", "fmtp.line"), TNum("a=fmtp:", "fmtp.pt", 0, 8), TText("a=fmtp:", "fmtp.params", 1),
+     TLine("a=fmtp:", "fmtp.line"), TNum("a=fmtp:", "fmtp.pt", 0, 8), Lst(TText("a=fmtp:", "fmtp.params", 1), ";", ""),
      TLine("a=sendrecv", "dir.line") >>
 \* what a WebRTC (ICE + DTLS) media section adds
 SdpMediaIce ==
@@ -461,7 +467,16 @@ SdpParams ==
      TLine("a=rtcp:", "rtcp.line"), TNum("a=rtcp:", "rtcp.port", 0, 16),
      Seps(TText("a=ssrc:", "ssrc.cname", 2), " :"),
      TLine("a=msid-semantic:", "msid.line"),
-     TLine("a=rtpmap:97 ", "rtxmap.line"), Seps(TNum("a=rtpmap:97 ", "rtx.rate", 1, 32), " /") >>
+     TLine("a=rtpmap:97 ", "rtxmap.line"), Seps(TNum("a=rtpmap:97 ", "rtx.rate", 1, 32), " /"),
+     \* list-valued attributes: the whole value as a separator-structured list
+     Lst(Whole("a=group:", "group.list"), " ", ""),
+     Lst(Whole("a=fmtp:96 ", "h264.params"), ";", ""),
+     Lst(Whole("a=rtcp-fb:96 nack ", "rtcpfb.sub"), " ", ""), Lst(Whole("a=rtcp-fb:", "rtcpfb.value"), " ", ""),
+     TLine("a=ssrc-group:", "ssrcgroup.line"), Lst(Whole("a=ssrc-group:", "ssrcgroup.list"), " ", ""),
+     TLine("a=extmap:2", "extmap2.line"), Lst(TText("a=extmap:2", "extmap2.dir", 0), "/", ""),
+     Lst(Whole("a=candidate:", "cand.pairs"), " ", ""),
+     Lst(Seps(TText("a=fingerprint:", "fp.bytes", 1), " "), ":", ""),
+     Lst(Whole("a=msid-semantic:", "msid.value"), " ", "") >>
 
 \* T.38 fax re-INVITE (image section; to_image_capabilities parses the numeric attributes)
 SdpT38Leaves ==
@@ -475,12 +490,14 @@ SdpT38Leaves ==
      TLine("a=T38FaxUdpEC:", "t38ec.line"), TWord("a=T38FaxUdpEC:", "t38.udpec", 0) >>
 
 SdpSimulcast ==
-  << TLine("a=rid:", "rid.line"), TText("a=rid:", "rid.id", 0), TWord("a=rid:", "rid.dir", 1), TText("a=rid:", "rid.params", 2),
-     TLine("a=simulcast:", "sim.line"), TWord("a=simulcast:", "sim.dir", 0), TText("a=simulcast:", "sim.list", 1) >>
+  << TLine("a=rid:", "rid.line"), TText("a=rid:", "rid.id", 0), TWord("a=rid:", "rid.dir", 1), Lst(TText("a=rid:", "rid.params", 2), ";", ""),
+     TLine("a=simulcast:", "sim.line"), TWord("a=simulcast:", "sim.dir", 0), Lst(TText("a=simulcast:", "sim.list", 1), ";", "~"),
+     \* the same token as a list of alternatives, and the whole value (direction / list pairs)
+     Lst(TText("a=simulcast:", "sim.alts", 1), ",", "~"), Lst(Whole("a=simulcast:", "sim.value"), " ", "") >>
 
 SdpCrypto ==
   << TLine("a=crypto:", "crypto.line"), TNum("a=crypto:", "crypto.tag", 0, 16), TWord("a=crypto:", "crypto.suite", 1),
-       TText("a=crypto:", "crypto.key", 2) >>
+       Lst(TText("a=crypto:", "crypto.key", 2), "|", ""), Lst(Whole("a=crypto:", "crypto.value"), " ", "") >>
 
 \* genuine descriptions: browser-style WebRTC offer (audio+video+application), simulcast offer, SDES (RTP/SAVP) offer
 SdpWebrtc    == SdpSessionCore \o SdpBundle \o SdpMediaCore \o SdpMediaIce \o SdpApplication \o SdpParams
